@@ -3,8 +3,8 @@
 (* Generator of s-expression shapes for C04: every identifier ddSMT treats *)
 (* specially (module ShapeHeads, generated from the sources of the tree    *)
 (* under test) as head of a list with 0..MaxArity children, each child one *)
-(* of: symbol, numeral, #b / #x constant, string literal, (), (sym), or a  *)
-(* nested special form.  Delta debugging drives inputs through exactly     *)
+(* of: symbol, numeral, #b / #x constant, string literal, (), (sym), (()), *)
+(* ((sym)), ((sym Int) ()), or a nested special form.  Delta debugging drives inputs through exactly     *)
 (* such ill-formed shapes ((forall), (bvand), (declare-const x)); every    *)
 (* final state is replayed through everything ddSMT runs unguarded in its  *)
 (* main process.                                                           *)
@@ -14,7 +14,9 @@ EXTENDS Naturals, Sequences, FiniteSets, ShapeHeads
 CONSTANT MaxArity
 
 Simple == { <<"sym">>, <<"num">>, <<"bvb">>, <<"bvx">>, <<"str">>,
-            <<"nil">>, <<"lsym">> }
+            <<"nil">>, <<"lsym">>, <<"lnil">>, <<"llsym">>, <<"lmix">> }
+\* lnil (()), llsym ((x)), lmix ((x Int) ()): binder / parameter lists with
+\* ill-formed entries
 Nested == { <<"nest", h>> : h \in NestHeads }
 Kids == Simple \cup Nested
 
